@@ -30,13 +30,13 @@ type c18Note struct {
 func (n c18Note) id() string { return fmt.Sprintf("%s|%s|%d", n.To, n.From, n.Time) }
 
 type c18World struct {
-	c       *chain.Chain
-	f       *chain.Fork
-	accs    []chain.Account
-	trace   []string
-	inbox   map[string]c18Note // id -> note
-	blocked map[string]bool    // owner|sender
-	nameOwner map[string]string
+	c             *chain.Chain
+	f             *chain.Fork
+	accs          []chain.Account
+	trace         []string
+	inbox         map[string]c18Note // id -> note
+	blocked       map[string]bool    // owner|sender
+	nameOwner     map[string]string
 	blockThenRead bool
 	viaName       bool
 }
